@@ -1,6 +1,6 @@
 SPECIFICATION Spec
 CONSTANTS
-  Ids <- IdsDef
+  Ids <- @@IDS@@
   Kind <- @@KIND@@
   P = @@P@@
   Modes <- @@MODES@@
